@@ -75,10 +75,10 @@ type StatusLine struct {
 
 // Report is a parsed report-status message.
 type Report struct {
-	Present bool         `json:"present"`
-	Unpack  string       `json:"unpack"`
-	Lines   []StatusLine `json:"lines"`
-	Malformed string     `json:"malformed,omitempty"`
+	Present   bool         `json:"present"`
+	Unpack    string       `json:"unpack"`
+	Lines     []StatusLine `json:"lines"`
+	Malformed string       `json:"malformed,omitempty"`
 }
 
 // readPkts splits a byte stream into pkt-lines; flush = nil payload with ok.
